@@ -4,6 +4,7 @@
 import GEVerif.Model.Lang
 import GEVerif.Props.C01
 import GEVerif.Props.C03
+import GEVerif.Props.C05
 import GEVerif.Lemmas.Language
 
 namespace GEVerif.C04
@@ -84,15 +85,17 @@ out of fuel.  `fcTy` / `fcGrammar`: `finiteChoiceTy` / `finiteChoice` without th
 abstract classes have registered productions.  `ClosedNodes`: every symbol mentioned by a
 registered symbol is registered. -/
 
+/-- A well-typed value within the depth budget is listed, up to its synthesis metadata (so a
+metadata-free one is listed itself). -/
 theorem C04_language_complete (g : Grammar) (hg : grammarWF g = true)
     (habs : altsAbstract g = true) (hcl : ClosedNodes g.spec g.reg) (hfc : fcGrammar g = true)
     (fuel budget : Nat) (ty : Ty) (deps : List (String × Val)) (v : Val)
     (hok : fuelOK g fuel budget ty = true) (hty : fcTy ty = true)
     (hreg : ∀ s ∈ explode ty, s ∈ g.reg.allNodes)
-    (hw : wt g deps ty v = true) (hd : v.depth ≤ budget) (he : v.erase = v) :
-    v ∈ langTy g fuel budget ty :=
+    (hw : wt g deps ty v = true) (hd : v.depth ≤ budget) :
+    v.erase ∈ langTy g fuel budget ty :=
   (completeP_all g ⟨GWF_of_grammarWF g hg, habs, hcl, hfc⟩ fuel).1 budget ty deps v hok hty hreg
-    hw hd he
+    hw hd
 
 /-- Enough fuel exists for every type and budget, and stays enough. -/
 theorem C04_language_fuel_exists (g : Grammar) (hg : grammarWF g = true) (budget : Nat) (ty : Ty) :
@@ -112,8 +115,9 @@ theorem C04_language_exact (g : Grammar) (hg : grammarWF g = true)
   refine ⟨F, fun fuel hle v => ⟨fun h => ?_, fun h => ?_⟩⟩
   · have hs := C04_language_sound g hg fuel budget ty v hwf h
     exact ⟨hs.1 [], hs.2⟩
-  · exact C04_language_complete g hg habs hcl hfc fuel budget ty [] v (hF fuel hle) hty hreg
-      h.1 h.2.1 h.2.2
+  · have := C04_language_complete g hg habs hcl hfc fuel budget ty [] v (hF fuel hle) hty hreg
+      h.1 h.2.1
+    rwa [h.2.2] at this
 
 /-- `boundedLanguage g d` is exactly the set of well-typed programs of the start symbol of depth
 at most `d` (metadata erased), provided its fuel is enough (`fuelOK`, checked by evaluation). -/
@@ -125,12 +129,271 @@ theorem C04_bounded_language_exact (g : Grammar) (hg : grammarWF g = true)
     v ∈ boundedLanguage g d ↔
       (wt g [] (.cls g.spec.start) v = true ∧ v.depth ≤ d ∧ v.erase = v) := by
   refine ⟨C04_bounded_language_sound g hg d v, fun h => ?_⟩
-  exact C04_language_complete g hg habs hcl hfc _ d _ [] v hok rfl
+  have := C04_language_complete g hg habs hcl hfc _ d _ [] v hok rfl
     (by intro s hs; simp only [explode, List.mem_singleton] at hs; rw [hs]; exact hstart)
-    h.1 h.2.1 h.2.2
+    h.1 h.2.1
+  rwa [h.2.2] at this
 
 /-- the strict finite-choice predicates imply the model's -/
 theorem C04_fc_finiteChoice (g : Grammar) (h : fcGrammar g = true) : finiteChoice g = true :=
   fcGrammar_finiteChoice g h
+
+/-! ### 4. Completeness of grow creation: no valid program (without empty lists) is unreachable
+
+FULL STATEMENT (properties.jsonl), false on the code as it stands:
+
+    for a finite-choice, well-formed grammar and every `v` with `wt g [] start v = true` and
+    `v.depth ≤ d` there are a fuel and a script `draws` with
+    `randomTree g ⟨.grow, d⟩ fuel (scriptSt draws) = .ok v' s'` and `v'.erase = v.erase`.
+
+It fails for programs containing an EMPTY list (`C04_grow_complete_witness`): the grammar analysis
+charges a possibly-empty list field the minimum depth of its element type (C05 finding), so at the
+depth frontier grow's filter removes a production whose instance with the empty list would fit.
+Proved below under the exact extra hypothesis `NoEmptyList v`.
+
+Hypotheses on the analysed grammar (all decidable; `hfix`, `hkeys` are theorems for
+`analyse spec`): `grammarWF`, `altsAbstract`, `ClosedNodes`, the distance table solves the
+distance equations (`isFixpoint`, C05) over exactly the registered symbols, node-depth mode
+(`g.spec.e = 0`).  Exactness of the analysis enters through `C05_dist_sound_partial`:
+`dist(production) ≤ depth(subtree) ≤ remaining budget`, so the depth filter keeps the production
+of every subtree. -/
+
+private theorem growOK_of (g : Grammar) (hg : grammarWF g = true) (habs : altsAbstract g = true)
+    (hcl : ClosedNodes g.spec g.reg) (hfix : isFixpoint g.spec g.reg g.dist = true)
+    (hkeys : keys g.dist = g.reg.allNodes) (he : g.spec.e = 0) : GrowOK g := by
+  refine ⟨GWF_of_grammarWF g hg, habs, hcl, ?_⟩
+  intro ty v hd hne hreg
+  have hclosed : Closed g.spec g.reg g.dist := by
+    intro s hs s' hs'
+    rw [hkeys] at hs ⊢
+    exact hcl s hs s' hs'
+  exact C05.C05_dist_sound_partial hfix hclosed he (ty := ty) (by rw [hkeys]; exact hreg) hd hne
+
+/-- Every member of the bounded language of ANY type (enumerated with any fuel and budget) that
+contains no empty list is produced by grow creation, up to synthesis metadata, under a suitable
+script: for every context that leaves room for it and whatever the sibling values are.  The
+script is consumed exactly; any fuel from `F` on works. -/
+theorem C04_grow_complete_language_partial (g : Grammar) (hg : grammarWF g = true)
+    (habs : altsAbstract g = true) (hcl : ClosedNodes g.spec g.reg)
+    (hfix : isFixpoint g.spec g.reg g.dist = true) (hkeys : keys g.dist = g.reg.allNodes)
+    (he : g.spec.e = 0)
+    (D fuelL budget : Nat) (ty : Ty) (v : Val) (hty : tyWF ty = true)
+    (hreg : ∀ s ∈ explode ty, s ∈ g.reg.allNodes)
+    (hv : v ∈ langTy g fuelL budget ty) (hne : NoEmptyList v = true)
+    (ctx : Ctx) (deps : List (String × Val)) (hd : ctx.depth + v.depth ≤ D) :
+    ∃ F draws v', (∀ fuel, F ≤ fuel →
+        createNode g ⟨.grow, D⟩ fuel ty ctx deps (scriptSt draws) =
+          .ok v' { src := .scripted ⟨draws, draws.length⟩ }) ∧ v'.erase = v := by
+  obtain ⟨F, hF⟩ := (growP_all g (growOK_of g hg habs hcl hfix hkeys he) D fuelL).1 budget ty v
+    hty hreg hv hne ctx hd
+  obtain ⟨draws, v', h1, h2⟩ := steer_run hF deps
+  exact ⟨F, draws, v', h1, h2⟩
+
+/-- `random_tree`: every program of `boundedLanguage g d` without empty lists is reachable by
+grow initialisation at maximum depth `d`. -/
+theorem C04_grow_complete_bounded_partial (g : Grammar) (hg : grammarWF g = true)
+    (habs : altsAbstract g = true) (hcl : ClosedNodes g.spec g.reg)
+    (hfix : isFixpoint g.spec g.reg g.dist = true) (hkeys : keys g.dist = g.reg.allNodes)
+    (he : g.spec.e = 0) (hstart : Sym.cls g.spec.start ∈ g.reg.allNodes)
+    (d : Nat) (v : Val) (hv : v ∈ boundedLanguage g d) (hne : NoEmptyList v = true) :
+    ∃ fuel draws v' s', randomTree g ⟨.grow, d⟩ fuel (scriptSt draws) = .ok v' s' ∧ v'.erase = v := by
+  have hdepth := (C04_bounded_language_sound g hg d v hv).2.1
+  obtain ⟨F, draws, v', h1, h2⟩ := C04_grow_complete_language_partial g hg habs hcl hfix hkeys he
+    d _ d (.cls g.spec.start) v rfl
+    (by intro s hs; simp only [explode, List.mem_singleton] at hs; rw [hs]; exact hstart)
+    hv hne ⟨0, 0⟩ [] (by simpa using hdepth)
+  exact ⟨F, draws, v', _, h1 F (Nat.le_refl _), h2⟩
+
+/-- THE PARTIAL THEOREM.  Finite-choice grammar (`fcGrammar`, type `fcTy`): every well-typed,
+refinement-satisfying value `v` of the type that contains no empty list and fits the remaining
+depth budget is produced by `create_node` under the grow decider for some script, up to
+synthesis metadata. -/
+theorem C04_grow_complete_partial (g : Grammar) (hg : grammarWF g = true)
+    (habs : altsAbstract g = true) (hcl : ClosedNodes g.spec g.reg) (hfc : fcGrammar g = true)
+    (hfix : isFixpoint g.spec g.reg g.dist = true) (hkeys : keys g.dist = g.reg.allNodes)
+    (he : g.spec.e = 0)
+    (D : Nat) (ty : Ty) (hwf : tyWF ty = true) (hty : fcTy ty = true)
+    (hreg : ∀ s ∈ explode ty, s ∈ g.reg.allNodes)
+    (v : Val) (deps' : List (String × Val)) (hw : wt g deps' ty v = true)
+    (hne : NoEmptyList v = true)
+    (ctx : Ctx) (deps : List (String × Val)) (hd : ctx.depth + v.depth ≤ D) :
+    ∃ fuel draws v' s', createNode g ⟨.grow, D⟩ fuel ty ctx deps (scriptSt draws) = .ok v' s' ∧
+      v'.erase = v.erase := by
+  obtain ⟨F0, hF0⟩ := C04_language_fuel_exists g hg v.depth ty
+  have hmem := C04_language_complete g hg habs hcl hfc F0 v.depth ty deps' v
+    (hF0 F0 (Nat.le_refl _)) hty hreg hw (Nat.le_refl _)
+  obtain ⟨F, draws, v', h1, h2⟩ := C04_grow_complete_language_partial g hg habs hcl hfix hkeys he
+    D F0 v.depth ty v.erase hwf hreg hmem (by rw [noEmpty_erase]; exact hne) ctx deps
+    (by rw [depth_erase]; exact hd)
+  exact ⟨F, draws, v', _, h1 F (Nat.le_refl _), h2⟩
+
+/-- EXACTNESS of grow initialisation on the programs without empty lists: such a (metadata-free)
+program is reachable at maximum depth `d` — by some fuel, from some state — IFF it is a
+well-typed program of the start symbol of depth at most `d`. -/
+theorem C04_grow_exact_partial (g : Grammar) (hg : grammarWF g = true)
+    (habs : altsAbstract g = true) (hcl : ClosedNodes g.spec g.reg) (hfc : fcGrammar g = true)
+    (hfix : isFixpoint g.spec g.reg g.dist = true) (hkeys : keys g.dist = g.reg.allNodes)
+    (he : g.spec.e = 0) (hstart : Sym.cls g.spec.start ∈ g.reg.allNodes)
+    (d : Nat) (hD : d < INF) (hmin : g.minTreeDepth ≤ d)
+    (v : Val) (hne : NoEmptyList v = true) (her : v.erase = v) :
+    (∃ fuel s s' v', randomTree g ⟨.grow, d⟩ fuel s = .ok v' s' ∧ v'.erase = v) ↔
+      (wt g [] (.cls g.spec.start) v = true ∧ v.depth ≤ d) := by
+  have hregs : ∀ s ∈ explode (.cls g.spec.start), s ∈ g.reg.allNodes := by
+    intro s hs; simp only [explode, List.mem_singleton] at hs; rw [hs]; exact hstart
+  constructor
+  · rintro ⟨fuel, s, s', v', hrun, rfl⟩
+    obtain ⟨hw, hdep⟩ := C04_grow_sound g d fuel s s' v' hg (fixpoint_consistent g hfix) hD hmin hrun
+    obtain ⟨F0, hF0⟩ := C04_language_fuel_exists g hg d (.cls g.spec.start)
+    have hmem := C04_language_complete g hg habs hcl hfc F0 d _ [] v'
+      (hF0 F0 (Nat.le_refl _)) rfl hregs hw hdep
+    have hs := C04_language_sound g hg F0 d _ _ rfl hmem
+    exact ⟨hs.1 [], hs.2.1⟩
+  · rintro ⟨hw, hdep⟩
+    obtain ⟨fuel, draws, v', s', hrun, hev⟩ := C04_grow_complete_partial g hg habs hcl hfc hfix
+      hkeys he d (.cls g.spec.start) rfl rfl hregs v [] hw hne ⟨0, 0⟩ [] (by simpa using hdep)
+    exact ⟨fuel, scriptSt draws, s', v', hrun, by rw [hev, her]⟩
+
+/-- For the analysed grammar of a specification the table hypotheses are theorems (C05). -/
+theorem C04_analyse_table (spec : GrammarSpec) :
+    isFixpoint (analyse spec).spec (analyse spec).reg (analyse spec).dist = true ∧
+    keys (analyse spec).dist = (analyse spec).reg.allNodes := by
+  refine ⟨(C05.C05_analyse_fixpoint spec).2, ?_⟩
+  show keys (distIter spec _ _ _) = _
+  rw [keys_distIter]
+  simp only [keys, List.map_map, Function.comp_def, List.map_id']
+  rfl
+
+/-! #### Why `NoEmptyList` is needed: what the depth filter lets through -/
+
+/-- Whatever the depth-limited decider, the fuel and the state: a value created for an abstract
+class is a well-typed instance of one of its productions THAT PASSED THE DEPTH FILTER
+(`depth + dist(production) ≤ maxDepth`).  So a program whose root production has a reported
+distance beyond the remaining budget is unreachable, however shallow the program is. -/
+theorem C04_reachable_production_fits (g : Grammar) (hg : grammarWF g = true) (dec : Decider)
+    (hk : dec.kind.depthLimited = true) (fuel n : Nat) (prods : List Nat) (ctx : Ctx)
+    (deps : List (String × Val)) (s s' : SynSt) (v : Val)
+    (ha : g.altsOf n = some prods)
+    (h : createNode g dec fuel (.cls n) ctx deps s = .ok v s') :
+    ∃ p ∈ prods, ctx.depth + g.distOf (.cls p) ≤ dec.maxDepth ∧ wt g [] (.cls p) v = true := by
+  cases fuel with
+  | zero => rw [createNode] at h; exact absurd h (throwE_not_ok _ _ _ _)
+  | succ fuel =>
+    rw [createNode] at h
+    split at h
+    · exact absurd h (throwE_not_ok _ _ _ _)
+    · rw [ha] at h
+      simp only at h
+      obtain ⟨p, hp, hfit, f, s1, s2, v0, hrun, rfl⟩ :=
+        createAbstract_inv g dec hk fuel n prods ctx s s' v h
+      refine ⟨p, hp, (fits_iff g dec ctx _).1 hfit, ?_⟩
+      rw [wt_setCtx]
+      exact C01.C01_create_cls_wt g hg dec f p _ [] s1 s2 v0 hrun
+
+/-- WITNESS.  `A ::= Leaf | Many(xs : Annotated[list[A], ListSizeBetween(0, 1)])` at maximum
+depth 1: every hypothesis of `C04_grow_complete_partial` except `NoEmptyList` holds, the program
+`Many([])` is in `boundedLanguage` (well-typed, depth 1), and NO fuel and NO state (random
+source, genotype) make grow initialisation return it: `Many` is reported at distance 2. -/
+theorem C04_grow_complete_witness :
+    grammarWF wG = true ∧ altsAbstract wG = true ∧ ClosedNodes wG.spec wG.reg ∧
+    fcGrammar wG = true ∧ isFixpoint wG.spec wG.reg wG.dist = true ∧
+    keys wG.dist = wG.reg.allNodes ∧ wG.spec.e = 0 ∧ deciderValid wG ⟨.grow, 1⟩ = true ∧
+    Val.node 2 0 0 [.list 0 0 []] ∈ boundedLanguage wG 1 ∧
+    wt wG [] (.cls 0) (.node 2 0 0 [.list 0 0 []]) = true ∧
+    (Val.node 2 0 0 [.list 0 0 []]).depth ≤ 1 ∧
+    NoEmptyList (.node 2 0 0 [.list 0 0 []]) = false ∧
+    wG.distOf (.cls 2) = 2 ∧
+    (∀ fuel s s' v', randomTree wG ⟨.grow, 1⟩ fuel s = .ok v' s' →
+      v'.erase ≠ .node 2 0 0 [.list 0 0 []]) := by
+  have hwf : grammarWF wG = true := by decide
+  have hmem : Val.node 2 0 0 [.list 0 0 []] ∈ boundedLanguage wG 1 := by
+    have h : ((boundedLanguage wG 1).any (· == Val.node 2 0 0 [.list 0 0 []])) = true := by
+      decide +kernel
+    exact mem_of_any_beq _ _ h
+  have hs := C04_bounded_language_sound wG hwf 1 _ hmem
+  refine ⟨hwf, by decide, by decide, by decide, by decide, by decide, by decide, by decide, hmem,
+    hs.1, hs.2.1, by decide, by decide, ?_⟩
+  intro fuel s s' v' hrun hev
+  obtain ⟨p, hp, hfit, hw⟩ := C04_reachable_production_fits wG hwf ⟨.grow, 1⟩ rfl fuel 0 [1, 2]
+    ⟨0, 0⟩ [] s s' v' (by decide) hrun
+  have hp1 : p = 1 := by
+    simp only [List.mem_cons, List.not_mem_nil, or_false] at hp
+    rcases hp with rfl | rfl
+    · rfl
+    · have : wG.distOf (.cls 2) = 2 := by decide
+      rw [this] at hfit; simp at hfit
+  subst hp1
+  cases v' <;> try (simp [wt] at hw; done)
+  rename_i c d e args
+  rw [Val.erase, Val.node.injEq] at hev
+  obtain ⟨rfl, _⟩ := hev
+  rw [wt] at hw
+  simp only [Bool.and_eq_true] at hw
+  have : isProdOf wG (wG.spec.classes.length + 1) 1 2 = false := by decide
+  rw [this] at hw
+  exact absurd hw.1.2 (by decide)
+
+/-! ### 5. Full creation: the frontier preference -/
+
+/-- FullDecider: as long as some recursive alternative fits STRICTLY, every alternative it can
+return is recursive and fits strictly, or sits exactly one level above the frontier
+(`dist = maxDepth - depth - 1`); a non-recursive alternative that merely fits is never chosen. -/
+theorem C04_full_frontier_partial (g : Grammar) (dec : Decider) (hk : dec.kind = .full)
+    (key : Ty) (alts : List Ty) (ctx : Ctx) (s s' : SynSt) (t : Ty)
+    (hd : ctx.depth ≤ dec.maxDepth)
+    (hrec : ∃ x ∈ alts, g.isRecTy x = true ∧ fitsStrict g dec ctx x = true)
+    (h : chooseProd g dec key alts ctx s = .ok t s') :
+    t ∈ alts ∧ ((g.isRecTy t = true ∧ fitsStrict g dec ctx t = true) ∨
+      (g.distOf t : Int) = (dec.maxDepth : Int) - ctx.depth - 1) := by
+  unfold chooseProd at h
+  split at h
+  · exact absurd h (throwE_not_ok _ _ _ _)
+  rw [hk] at h
+  simp only at h
+  have hmem := pick_mem _ _ _ _ h
+  unfold fullCands at hmem
+  simp only [hd, if_true] at hmem
+  obtain ⟨x, hx, hx1, hx2⟩ := hrec
+  have hne : (alts.filter fun y => (g.isRecTy y && fitsStrict g dec ctx y)
+      || decide ((g.distOf y : Int) = (dec.maxDepth : Int) - ctx.depth - 1)).isEmpty = false := by
+    rw [List.isEmpty_eq_false_iff]
+    intro hnil
+    have : x ∈ alts.filter fun y => (g.isRecTy y && fitsStrict g dec ctx y)
+        || decide ((g.distOf y : Int) = (dec.maxDepth : Int) - ctx.depth - 1) :=
+      List.mem_filter.2 ⟨hx, by simp [hx1, hx2]⟩
+    rw [hnil] at this; cases this
+  rw [hne] at hmem
+  simp only [Bool.false_eq_true, if_false, List.mem_filter, Bool.or_eq_true, Bool.and_eq_true,
+    decide_eq_true_eq] at hmem
+  exact hmem
+
+/-! ### Non-vacuity: the hypotheses hold on a concrete recursive grammar with a bounded list, a
+union, a tuple and refined ints / names; the enumerator's fuel is enough there; a script reaches a
+depth-2 program, and the completeness theorem applies to it -/
+
+example : grammarWF exLG = true ∧ altsAbstract exLG = true ∧ ClosedNodes exLG.spec exLG.reg ∧
+    fcGrammar exLG = true ∧ finiteChoice exLG = true ∧
+    isFixpoint exLG.spec exLG.reg exLG.dist = true ∧ keys exLG.dist = exLG.reg.allNodes ∧
+    exLG.spec.e = 0 ∧ distConsistent exLG = true ∧ Sym.cls exLG.spec.start ∈ exLG.reg.allNodes ∧
+    exLG.minTreeDepth = 1 := by decide
+-- the fuel of `boundedLanguage` is enough at depths 1 and 2: `C04_bounded_language_exact` applies
+example : fuelOK exLG (4 * (1 + 2) * (exLG.spec.classes.length + 4) * (specSize exLG.spec + 2) + 64) 1
+    (.cls exLG.spec.start) = true := by decide +kernel
+example : fuelOK exLG (4 * (2 + 2) * (exLG.spec.classes.length + 4) * (specSize exLG.spec + 2) + 64) 2
+    (.cls exLG.spec.start) = true := by decide +kernel
+example : (boundedLanguage exLG 1).length = 6 ∧ (boundedLanguage exLG 2).length = 150 := by
+  decide +kernel
+-- the soundness theorems apply: creation succeeds (grow, full, PI-grow)
+example : erasedResultIs (randomTree exLG ⟨.grow, 2⟩ 30 (scriptSt [2, 1, 0, 0, 1, 0, 1, 0])) exLV = true := by
+  decide +kernel
+example : resIsOk (randomTree exLG ⟨.full, 2⟩ 30 (scriptSt [2, 1, 0, 0, 1, 0, 1, 0])) = true ∧
+    resIsOk (randomTree exLG ⟨.pigrow, 2⟩ 30 (scriptSt [2, 1, 0, 0, 1, 0, 1, 0])) = true := by
+  decide +kernel
+-- `exLV` is in the bounded language, has no empty list: it is reachable (by the theorem)
+example : ∃ fuel draws v' s', randomTree exLG ⟨.grow, 2⟩ fuel (scriptSt draws) = .ok v' s' ∧
+    v'.erase = exLV :=
+  C04_grow_complete_bounded_partial exLG (by decide) (by decide) (by decide) (by decide) (by decide)
+    (by decide) (by decide) 2 exLV (mem_of_any_beq _ _ (by decide +kernel)) (by decide)
+-- the witness grammar: same hypotheses, but `Many([])` has an empty list
+example : NoEmptyList (.node 2 0 0 [.list 0 0 []]) = false ∧ NoEmptyList exLV = true := by decide
 
 end GEVerif.C04
